@@ -66,7 +66,21 @@ def gen_churn_unit(rng):
     return {"args": sel + ["--regular-expression-cache-size", str(rng.choice((0, 1, 2, 64)))], "A": A, "B": B, "headers": False, "funcs": ["parse_time"]}
 
 
+def gen_exec_unit(rng):
+    """A program that could not be started for one record (a NUL in its argument, an argument too long for the kernel) is
+    started for the next one like any other."""
+    def rec():
+        return jm.dumps({"s": rng.choice(["one", "two", "a\u0000b", "\u0000", "x" * 140000, "three", "", "-n"]), "i": rng.randint(0, 3)})
+    A = [rec() for _ in range(rng.choice((1, 2, 3)))]
+    B = [rec() for _ in range(rng.choice((1, 2, 3)))]
+    sel = rng.choice([["--select=(get (exec \"echo\" .s) \"stdout\")=out"], ["--select=(get (exec \"printf\" \"%s\" .s) \"stdout\")=out", "--select=.i=i"],
+                      ["--filter=(get (exec \"test\" \"-n\" .s) \"success\")", "--select=.i=i"]])
+    return {"args": sel, "A": A, "B": B, "headers": False, "funcs": ["exec"]}
+
+
 def gen_unit(rng):
+    if rng.random() < 0.004:
+        return gen_exec_unit(rng)
     if rng.random() < 0.04:
         return gen_two_printers_unit(rng)
     if rng.random() < 0.01:
